@@ -103,7 +103,7 @@ def d1(ctx, rep):
         pats[meth] = p
         l1 = p['level1']
         via = f' (through {p["via"]})' if p.get('via') else ''
-        if l1 is None:
+        if not l1:
             rep.undecided('D1.accessor', fn, fn.node.name, f'{meth}: how the two inputs of an edge are read was not recognised', construct=f'{meth} level 1')
         else:
             ok1 = bool(l1) and sorted(l1.values()) == ['L', 'R'] and any(k.startswith('left') and v == 'L' for k, v in l1.items()) \
@@ -112,7 +112,7 @@ def d1(ctx, rep):
                       f'{meth}: at level 1 the two inputs of an edge are not (u_matrix[:, L], u_matrix[:, R]) ({l1})', construct=f'{meth} level 1')
         if p['deeper']:
             rep.ok('D1.accessor', fn, fn.node.name, f'{meth}: above level 1 reads Edge.get_conditional_uni(*edge.parents){via}', construct=f'{meth} deeper levels')
-        elif l1 is None:
+        elif not l1 or p['deeper'] is None:
             rep.undecided('D1.accessor', fn, fn.node.name, f'{meth}: accessor above level 1 not recognised', construct=f'{meth} deeper levels')
         else:
             rep.bad('D1.accessor', fn, fn.node.name, f'{meth}: above level 1 the inputs are not get_conditional_uni of the edge\'s own parents in order',
@@ -178,31 +178,58 @@ def d2(ctx, rep):
     pd_calls = [s for s in walk_no_nested(fn.node) if isinstance(s, ast.Assign) and isinstance(s.value, ast.Call) and call_name(s.value) == 'partial_derivative'
                 and isinstance(s.targets[0], ast.Name)]
     names = [s.targets[0].id for s in pd_calls]
-    rep.floor('D2.correct', 'h-function evaluations in prepare_next_tree', len(names), 2)
-    for nm in names:
+    if len(names) < 2:
+        rep.undecided('D2.correct', fn, fn.node.name, 'the two h-function evaluations `x = copula.partial_derivative(...)` were not found in prepare_next_tree',
+                      construct='correction of the h-values')
+
+    def fixes_of(owner, nm):
         fixes = {}
-        for s in walk_no_nested(fn.node):
+        for s in walk_no_nested(owner.node):
             if isinstance(s, ast.Assign) and isinstance(s.targets[0], ast.Subscript) and isinstance(s.targets[0].value, ast.Name) and s.targets[0].value.id == nm:
                 m = s.targets[0].slice
-                if isinstance(m, ast.Compare) and isinstance(m.left, ast.Name) and m.left.id == nm and isinstance(m.ops[0], ast.Eq):
-                    fixes[const_value(m.comparators[0])] = s.value
-        eps = lambda e: prog.resolve(fn.module, e) == 'copulas.utils.EPSILON'
-        ok0 = 0 in fixes and eps(fixes[0])
-        ok1 = 1 in fixes and isinstance(fixes[1], ast.BinOp) and isinstance(fixes[1].op, ast.Sub) and const_value(fixes[1].left) in (1, 1.0) and eps(fixes[1].right)
-        rep.check('D2.correct', fn, pd_calls[names.index(nm)], ok0 and ok1, f'{nm}: 0 -> EPSILON and 1 -> 1 - EPSILON',
+                if isinstance(m, ast.Compare) and isinstance(m.left, ast.Name) and isinstance(m.ops[0], ast.Eq):
+                    fixes[const_value(m.comparators[0])] = (s.value, m.left.id)
+        return fixes
+    for nm in names:
+        owner, var = fn, nm
+        fixes = fixes_of(fn, nm)
+        if not fixes:
+            # the value is passed through a one-argument private helper that corrects and returns it
+            for s in walk_no_nested(fn.node):
+                cands = [c for c in ast.walk(s) if isinstance(c, ast.Call) and len(c.args) == 1 and isinstance(c.args[0], ast.Name) and c.args[0].id == nm
+                         and isinstance(c.func, ast.Attribute) and isinstance(c.func.value, ast.Name) and c.func.value.id in (fn.self_name, 'cls', tree.name)]
+                for c in cands:
+                    h = tree.lookup(c.func.attr)
+                    if h is not None and h.name.startswith('_'):
+                        ps = h.params[1:] if h.kind in ('method', 'classmethod') else h.params
+                        if ps and fixes_of(h, ps[0]):
+                            owner, var, fixes = h, ps[0], fixes_of(h, ps[0])
+        if not fixes:
+            rep.undecided('D2.correct', fn, pd_calls[names.index(nm)], f'{nm}: no masked store `x[x == 0] = ...` found here or in a one-argument helper it is passed to',
+                          construct=f'correction of {nm}')
+            continue
+        eps = lambda e: prog.resolve(owner.module, e) == 'copulas.utils.EPSILON'
+        own_mask = all(mv == var for _v, mv in fixes.values())
+        ok0 = 0 in fixes and eps(fixes[0][0])
+        ok1 = 1 in fixes and isinstance(fixes[1][0], ast.BinOp) and isinstance(fixes[1][0].op, ast.Sub) and const_value(fixes[1][0].left) in (1, 1.0) and eps(fixes[1][0].right)
+        rep.check('D2.correct', fn, pd_calls[names.index(nm)], ok0 and ok1 and own_mask, f'{nm}: 0 -> EPSILON and 1 -> 1 - EPSILON',
                   f'{nm} is stored without both corrections: an h-value of exactly 0 or 1 reaches the next tree / the copula formulas', construct=f'correction of {nm}')
     # arguments of the two evaluations are (left, right) and (right, left); U = [first, second]
     ust = [s for s in walk_no_nested(fn.node) if isinstance(s, ast.Assign) and isinstance(s.targets[0], ast.Attribute) and s.targets[0].attr == 'U']
-    ok = False
+    ok = None
     if ust and len(pd_calls) == 2:
         arr = ust[0].value
         lst = arr.args[0] if isinstance(arr, ast.Call) and arr.args else arr
         order = [getattr(e, 'id', None) for e in lst.elts] if isinstance(lst, (ast.List, ast.Tuple)) else []
-        x0 = _pair_of(fn, pd_calls[0].value.args[0])
-        x1 = _pair_of(fn, pd_calls[1].value.args[0])
-        ok = order == names and x0 is not None and x1 is not None and x0 == list(reversed(x1)) and x0[0].startswith('left') and x0[1].startswith('right')
-    rep.check('D2.correct', fn, ust[0] if ust else fn.node.name, ok, 'U = [h(left, right), h(right, left)] in this order',
-              'edge.U is not [left given right, right given left]', construct='layout of edge.U')
+        x0 = _pair_of(fn, pd_calls[0].value.args[0]) if pd_calls[0].value.args else None
+        x1 = _pair_of(fn, pd_calls[1].value.args[0]) if pd_calls[1].value.args else None
+        if order and set(order) == set(names) and x0 and x1 and all(isinstance(z, str) for z in x0 + x1):
+            ok = order == names and x0 == list(reversed(x1)) and x0[0].startswith('left') and x0[1].startswith('right')
+    if ok is None:
+        rep.undecided('D2.correct', fn, ust[0] if ust else fn.node.name, 'how edge.U is assembled from the two h-arrays was not recognised', construct='layout of edge.U')
+    else:
+        rep.check('D2.correct', fn, ust[0], ok, 'U = [h(left, right), h(right, left)] in this order',
+                  'edge.U is not [left given right, right given left]', construct='layout of edge.U')
     gcu = prog.cls(TREE + 'Edge').methods['get_conditional_uni']
     n = 0
     for s in walk_no_nested(gcu.node):
@@ -216,7 +243,9 @@ def d2(ctx, rep):
                 and ast.dump(a.value) == ast.dump(b.value) and isinstance(a.value, ast.Attribute) and a.value.attr == 'U' and a.value.value.id == t.left.value.id
             rep.check('D2.correct', gcu, s, good, f'{side}: U[0] when the parent\'s L is the wanted variable, else U[1]',
                       f'{side}: the wrong h-array of the parent is taken', construct=f'get_conditional_uni {side}')
-    rep.floor('D2.correct', 'selections in get_conditional_uni', n, 2)
+    if n == 0:
+        rep.undecided('D2.correct', gcu, gcu.node.name, 'the selections `x = parent.U[0] if parent.L == x_node else parent.U[1]` were not found in get_conditional_uni',
+                      construct='get_conditional_uni selections')
 
 
 def _pair_of(fn, e):
@@ -250,11 +279,30 @@ def d2b(ctx, rep):
                 n += 1
                 src_type = _edge_source(fn, ct, 'name')
                 src_theta = _edge_source(fn, th[0].value, 'theta')
-                ok = src_type is not None and src_type == src_theta
+                if src_type is None or src_theta is None:
+                    tv = th[0].value
+                    if isinstance(ct, ast.Name) and isinstance(tv, ast.Name) and ct.id in fn.params and tv.id in fn.params and fn.cls is None:
+                        # a constructor helper: judge every call site
+                        i1, i2 = fn.params.index(ct.id), fn.params.index(tv.id)
+                        for g in prog.functions.values():
+                            for c in walk_no_nested(g.node):
+                                if isinstance(c, ast.Call) and prog.resolve(g.module, c.func) == fn.qualname and len(c.args) > max(i1, i2):
+                                    a1, a2 = _edge_source(g, c.args[i1], 'name'), _edge_source(g, c.args[i2], 'theta')
+                                    if a1 is None or a2 is None:
+                                        rep.undecided('D2b.own', g, c, 'where the family / theta handed to the copula constructor helper come from is not derived',
+                                                      construct=f'{g.short}: rebuilt pair copula')
+                                    else:
+                                        rep.check('D2b.own', g, c, a1 == a2, f'family and theta both come from {a1}',
+                                                  f'the family comes from {a1} but theta from {a2}: a pair copula is evaluated with another edge\'s parameter',
+                                                  construct=f'{g.short}: rebuilt pair copula')
+                    else:
+                        rep.undecided('D2b.own', fn, s, 'where the family / theta of the rebuilt copula come from is not derived', construct=f'{fn.short}: rebuilt pair copula')
+                    continue
+                ok = src_type == src_theta
                 rep.check('D2b.own', fn, s, ok, f'family and theta both come from {src_type}',
                           f'the family comes from {src_type} but theta from {src_theta}: a pair copula is evaluated with another edge\'s parameter',
                           construct=f'{fn.short}: rebuilt pair copula')
-    rep.floor('D2b.own', 'pair copulas rebuilt from edges', n, 3)
+    rep.floor('D2b.own', 'pair copulas rebuilt from edges', n, 1)
 
 
 def _edge_source(fn, e, attr):
